@@ -142,6 +142,34 @@ func cmdCheck(args []string) {
 	structural := P.structuralObligations(prop, meta)
 
 	P.discharge(obls, secs, *tier == "thorough", 16)
+	// an obligation without an answer whose ground witness is refuted is refuted (with the witness's model)
+	{
+		var ws []*Obligation
+		for _, o := range obls {
+			if !o.MustFail && o.Res.Status != "unsat" && o.Res.Status != "sat" {
+				ws = append(ws, o.Witnesses...)
+			}
+		}
+		if len(ws) > 0 {
+			P.discharge(ws, secs, false, 16)
+			for _, o := range obls {
+				if o.MustFail || o.Res.Status == "unsat" || o.Res.Status == "sat" {
+					continue
+				}
+				for _, w := range o.Witnesses {
+					if w.Res.Status == "sat" {
+						o.Res = w.Res
+						o.Src += " [refuted at " + w.Label[strings.LastIndex(w.Label, ".at["):] + "]"
+						break
+					}
+					if w.Res.Status != "unsat" && o.Kind == "frame" {
+						o.NotExcluded = true
+						o.Src += " [an undeclared write to the object in " + w.Label[strings.LastIndex(w.Label, ".at[")+4:len(w.Label)-1] + ", which exists at entry, cannot be excluded]"
+					}
+				}
+			}
+		}
+	}
 
 	// 4. classify
 	baseline := loadBaseline(*verif)
@@ -212,7 +240,7 @@ func cmdCheck(args []string) {
 		case len(undecidedFns[o.Fn]) > 0:
 			rec.Verdict = "UNDECIDED"
 			undecided = append(undecided, fmt.Sprintf("UNDECIDED property=%s obligation=%s reason=%s", prop, full, undecidedFns[o.Fn][0]))
-		case st == "sat" || inBase.has(full):
+		case st == "sat" || inBase.has(full) || o.NotExcluded:
 			rec.Verdict = "FAILED"
 			if st != "sat" {
 				rec.Verdict = "FAILED-no-model"
